@@ -189,7 +189,7 @@ func c02Request(c *Ctx) {
 			return "", nil, false
 		}
 		if n, fs, ok := guardName(cond); ok && (strings.HasPrefix(n, "elem(Server.leases)") || strings.HasPrefix(n, "lookupLeaseByCircuitID()")) {
-			return n, fs, true
+			return canonGuard(n), fs, true
 		}
 		return "", nil, false
 	}
@@ -318,7 +318,7 @@ func c02Decline(c *Ctx) {
 				return "", nil, false
 			}
 			if n, fs, ok := guardName(cond); ok && (strings.HasPrefix(n, "found(Server.leases)") || strings.HasPrefix(n, "elem(Server.leases)")) {
-				return n, fs, true
+				return canonGuard(n), fs, true
 			}
 			return "", nil, false
 		}
